@@ -12,7 +12,16 @@ from pathlib import Path
 from .common import TLA, MachineryError, NCPU, subdir, dumps
 
 TLC_CP = "/opt/veriftools/tla/tla2tools.jar:/opt/veriftools/tla/CommunityModules-deps.jar"
-_counter = [0]
+import itertools
+import threading
+
+_ids = itertools.count(1)
+_lock = threading.Lock()
+
+
+def _next_id() -> int:
+    with _lock:
+        return next(_ids)
 
 
 @dataclass
@@ -77,8 +86,7 @@ def run_tlc(
     extra: list[str] | None = None,
 ) -> TLCResult:
     """Run TLC on /verif/tla/<module>.tla with a cfg given as path or as text."""
-    _counter[0] += 1
-    work = subdir(f"tlc{_counter[0]}")
+    work = subdir(f"tlc{_next_id()}")
     if isinstance(cfg, Path) or (isinstance(cfg, str) and "\n" not in cfg and cfg.endswith(".cfg")):
         cfg_path = Path(cfg)
         if not cfg_path.is_absolute():
@@ -158,7 +166,6 @@ def sany(module: str) -> None:
 
 def write_json(name: str, obj) -> Path:
     """Write an input file for TLC (read there with JsonDeserialize(IOEnv.X))."""
-    _counter[0] += 1
-    p = subdir("tlcin") / f"{_counter[0]}-{name}"
+    p = subdir("tlcin") / f"{_next_id()}-{name}"
     p.write_text(dumps(obj))
     return p
